@@ -76,6 +76,7 @@ func newPartition(id uuid.UUID, meta *pb.Partition, dataset *Dataset, raftWalDB 
 			"partition_id": id,
 		}),
 	}
+	p.wal = verifWrapWAL(id, p.wal)
 
 	return p
 }
@@ -331,6 +332,7 @@ func (this *partition) proposeAndWaitForCommit(ctx context.Context, proposal *pb
 	if err := this.raft.Propose(ctx, proposalData); err != nil {
 		return nil, err
 	}
+	verifAfterPropose(this, proposal)
 
 	select {
 	case res := <-notifC:
